@@ -108,6 +108,21 @@ def build(tier, seed):
                 # a second rule after the expression: must survive whatever the parser did with the first
                 if (si + ki) % 3 == 0:
                     add_predicate(d, "*x != 77", "closure")
+    # ---- bounds whose expression has another numeric type (rejected today; if ever accepted, the *written* value counts)
+    other = [("u8", "const LIMIT: u16 = 300;", "LIMIT", 300), ("i32", "const LIMIT: i64 = 5_000_000_000;", "LIMIT", 5_000_000_000), ("u8", "const LIMIT: i32 = -1;", "LIMIT", -1),
+             ("i8", "const LIMIT: u8 = 200;", "LIMIT", 200), ("u16", "", "70000u32", 70000), ("i64", "const LIMIT: i128 = 1 << 100;", "LIMIT", 1 << 100)]
+    for (ty, sup, text, den) in other:
+        for kind in KINDS:
+            d = new(inner_int(ty), "int:const-of-other-integer-type")
+            if sup:
+                d.support.append(sup)
+            d.vals.append(Vld(kind, text, den))
+    # a float literal as an integer bound: `less = 2.5` means x < 2.5, i.e. x <= 2
+    fl = {"less": ("less", 3), "less_or_equal": ("less_or_equal", 2), "greater": ("greater", 2), "greater_or_equal": ("greater_or_equal", 3)}
+    for ty in ("i32", "u8"):
+        for kind in KINDS:
+            d = new(inner_int(ty), "int:float-literal-bound")
+            d.vals.append(Vld(kind, "2.5", fl[kind][1]))
     # ---- float bound spellings
     for ti, ty in enumerate(FLOAT_TYPES):
         for si, (cls, text, ex, sup) in enumerate(float_spellings(ty)):
@@ -127,6 +142,36 @@ def build(tier, seed):
             d.vals.append(Vld(kind, text, den))
             if si % 2 == 0:
                 d.vals.append(Vld("not_empty"))
+    # both length bounds together, multi-byte probes (character counts, not bytes, on both sides)
+    for (mn, mx) in ((6, 20), (2, 3), (3, 3)):
+        for order in (0, 1):
+            for sp in ("lit", "const"):
+                d = new(inner_string(), "len:both-bounds")
+                lo = Vld("len_char_min", str(mn), mn)
+                hi = Vld("len_char_max", str(mx), mx)
+                if sp == "const":
+                    d.support.append("const MN: usize = %d; const MX: usize = %d;" % (mn, mx))
+                    lo, hi = Vld("len_char_min", "MN", mn), Vld("len_char_max", "MX", mx)
+                d.vals = [lo, hi] if order == 0 else [hi, lo]
+                for probe in ("ééé", "éééééé", "ééééééé", "ß" * mn, "ß" * (mn - 1), "𝒳" * mx, "𝒳" * (mx + 1), "a" * mn, "日本語", "é" * mx, "é" * (mx + 1)):
+                    d.tags.append("probe=" + probe)
+    # regex literals that look like plain text (candidates for "fast paths"): matched as regular expressions all the same
+    plain = [("^0{4}$", ["0000", "0{4}", "00000", "000"]), ("-{2,}", ["--", "-{2,}", "-", "a---b"]), ("abc", ["abc", "xabcx", "ab", "ABC"]), ("^abc$", ["abc", "xabc", "abcx"]),
+             ("a.c", ["abc", "a.c", "ac", "a\nc"]), ("^a|b$", ["a", "b", "ax", "xb", "x"]), ("a{2}", ["aa", "a{2}", "a"]), ("^$", ["", " ", "a"]), ("a+", ["a", "a+", "b"]),
+             ("^a?$", ["", "a", "a?", "aa"]), ("a\\.b", ["a.b", "axb", "a\\.b"]), ("(ab)", ["ab", "(ab)"]), ("[ab]", ["a", "[ab]", "c"]), ("a*", ["", "b"]), ("^.$", ["a", "ab", "ß", ""])]
+    for pat, probes in plain:
+        for form in ("literal", "raw", "static"):
+            d = new(inner_string(), "regex:plain-text-looking:" + form)
+            esc = pat.replace("\\", "\\\\").replace('"', '\\"')
+            if form == "literal":
+                d.vals.append(Vld("regex", '"%s"' % esc, pat.replace("\\\\", "\\")))
+            elif form == "raw":
+                d.vals.append(Vld("regex", 'r"%s"' % pat.replace("\\\\", "\\"), pat.replace("\\\\", "\\")))
+            else:
+                d.support.append('static RX: ::std::sync::LazyLock<::regex::Regex> = ::std::sync::LazyLock::new(|| ::regex::Regex::new(%s).unwrap());' % rust_str(pat.replace("\\\\", "\\")))
+                d.vals.append(Vld("regex", "RX", pat.replace("\\\\", "\\")))
+            for pr in probes:
+                d.tags.append("probe=" + pr.replace("\\\\", "\\"))
     # ---- regex spellings
     rx = [("literal", '"^[a-z]+$"', "^[a-z]+$", []), ("raw-literal", 'r"^\\d+$"', "^\\d+$", []), ("raw-hash-literal", 'r#"^"a+"$"#', '^"a+"$', []),
           ("escaped-literal", '"^\\\\w+\\\\s$"', "^\\w+\\s$", []), ("unicode-literal", '"^ß+$"', "^ß+$", []),
